@@ -51,7 +51,14 @@ type api struct {
 	must  bool
 	heavy bool // run only on the small input sets
 	call  func(b []byte) error
+	// reused instances: mk returns a call bound to ONE parser/tokenizer instance that a worker keeps across inputs (it is
+	// replaced after any error or panic, so the history holds successful parses only: leaks after a FAILED parse are C07's)
+	mk func() func(b []byte) error
 }
+
+// extraAPI: the reused-instance and token-function variants run on the families marked extra (literals, token functions,
+// documents, seeds, completions), not on the whole (state, byte, continuation) cover
+func extraAPI(a *api) bool { return a.mk != nil || strings.Contains(a.name, "+Mongo") }
 
 func noData(jp.Expr, any) {}
 
@@ -109,19 +116,28 @@ func apis() []api {
 		{"sen.Parser+Mongo.Unmarshal(any)", "sen", false, true, func(b []byte) error { p := sen.Parser{}; p.AddMongoFuncs(); var v any; return p.Unmarshal(b, &v) }, nil},
 		{"sen.Parser+Mongo.MustParse", "sen", true, true, func(b []byte) error { p := sen.Parser{}; p.AddMongoFuncs(); p.MustParse(b); return nil }, nil},
 		// one instance reused across inputs
-		{"oj.Parser(reused).Parse", "json", false, true, nil, func() func([]byte) error { p := &oj.Parser{}; return func(b []byte) error { _, err := p.Parse(b); return err } }},
+		{"oj.Parser(reused).Parse", "json", false, true, nil, func() func([]byte) error {
+			p := &oj.Parser{}
+			return func(b []byte) error { _, err := p.Parse(b); return err }
+		}},
 		{"oj.Parser(reused).ParseReader@1", "json", false, true, nil, func() func([]byte) error {
 			p := &oj.Parser{}
 			return func(b []byte) error { _, err := p.ParseReader(plib.Chunked(b, "1")); return err }
 		}},
-		{"gen.Parser(reused).Parse", "json", false, true, nil, func() func([]byte) error { p := &gen.Parser{}; return func(b []byte) error { _, err := p.Parse(b); return err } }},
+		{"gen.Parser(reused).Parse", "json", false, true, nil, func() func([]byte) error {
+			p := &gen.Parser{}
+			return func(b []byte) error { _, err := p.Parse(b); return err }
+		}},
 		{"gen.Parser(reused).ParseReader@1", "json", false, true, nil, func() func([]byte) error {
 			p := &gen.Parser{}
 			return func(b []byte) error { _, err := p.ParseReader(plib.Chunked(b, "1")); return err }
 		}},
 		{"oj.Tokenizer(reused).Parse", "json", false, true, nil, func() func([]byte) error { t := &oj.Tokenizer{}; return func(b []byte) error { return t.Parse(b, z) } }},
 		{"oj.Validator(reused).Validate", "json", false, true, nil, func() func([]byte) error { v := &oj.Validator{}; return func(b []byte) error { return v.Validate(b) } }},
-		{"sen.Parser(reused).Parse", "sen", false, true, nil, func() func([]byte) error { p := &sen.Parser{}; return func(b []byte) error { _, err := p.Parse(b); return err } }},
+		{"sen.Parser(reused).Parse", "sen", false, true, nil, func() func([]byte) error {
+			p := &sen.Parser{}
+			return func(b []byte) error { _, err := p.Parse(b); return err }
+		}},
 		{"sen.Parser+Mongo(reused).Parse", "sen", false, true, nil, func() func([]byte) error {
 			p := &sen.Parser{}
 			p.AddMongoFuncs()
@@ -214,6 +230,7 @@ type job struct {
 	cls   string
 	lang  string // which api language set
 	light bool   // only the non-heavy apis
+	extra bool   // also the reused-instance / token-function variants
 }
 
 type state struct {
@@ -289,7 +306,7 @@ func (rn *runner) work(w int, jobs <-chan []job, wg *sync.WaitGroup) {
 			rn.inflight[w].Store(fl)
 			for ai := range rn.apis {
 				a := &rn.apis[ai]
-				if a.lang != j.lang || (j.light && a.heavy) {
+				if a.lang != j.lang || (j.light && a.heavy) || (!j.extra && extraAPI(a)) {
 					continue
 				}
 				fl.api = a.name
@@ -475,6 +492,7 @@ func runAll(args []string) {
 	stf := fs.String("states", "", "ndjson of JsonText machine states (TLC transition cover)")
 	tier := fs.String("tier", "quick", "quick|thorough")
 	fams := fs.String("fam", "json,sen,jp,conv", "families")
+	litf := fs.String("lits", "", "ndjson of TLC-generated literals (JsonValueGen LIT lines: string-escape classes, number shapes)")
 	fs.Parse(args)
 	traceOut := os.Stdout
 	if dn, err := os.OpenFile(os.DevNull, os.O_WRONLY, 0); err == nil {
@@ -530,8 +548,12 @@ func runAll(args []string) {
 		genStates(*stf, quick, want, emit)
 		genMutations(r, quick, want, emit)
 	}
+	if *litf != "" && (want["json"] || want["sen"]) {
+		genLits(*litf, quick, want, emit)
+	}
 	if want["sen"] {
 		genSen(r, quick, emit)
+		genMongo(quick, emit)
 	}
 	if want["jp"] {
 		genJP(r, quick, emit)
@@ -696,7 +718,7 @@ func genStates(path string, quick bool, want map[string]bool, emit func(job)) {
 					pre, post := []byte(em[0]), []byte(em[1])
 					ecls := fmt.Sprintf("emb%d-step:%s", ei+1, s.Pc)
 					emit(job{b: cat(pre, w), cls: fmt.Sprintf("emb%d-eof:%s", ei+1, s.Pc), lang: l})
-					emit(job{b: cat(pre, w, plib.Bytes(s.C), post), cls: fmt.Sprintf("emb%d-compl:%s", ei+1, s.Pc), lang: l})
+					emit(job{b: cat(pre, w, plib.Bytes(s.C), post), cls: fmt.Sprintf("emb%d-compl:%s", ei+1, s.Pc), lang: l, extra: true})
 					for _, x := range bytesToTry {
 						if l != "sen" || !quick {
 							for _, mid := range embConfusions {
@@ -760,6 +782,130 @@ func genStates(path string, quick bool, want map[string]bool, emit func(job)) {
 						emit(job{b: cat(in, cl), cls: "step+close:" + s.Pc, lang: l, light: light})
 					}
 				})
+			}
+		}
+	}
+}
+
+// genLits: the literals TLC enumerates from spec/JsonValue (JsonValueGen: every string-escape class - ASCII, 2-byte,
+// 3-byte \\u, surrogate pair, lone high, lone low, U+10FFFF, raw and invalid UTF-8 - in bodies of up to 2 (thorough 3)
+// segments; number shapes) as values and member names in several contexts, on ALL entry points (fresh and reused
+// instances, SEN with and without token functions); the \\u classes additionally in every order of three segments
+// (low after a literal U+FFFD, a pair split by another escape, reversed pairs) and straddling the 4096-byte refill.
+func genLits(path string, quick bool, want map[string]bool, emit func(job)) {
+	f, err := os.Open(path)
+	if err != nil {
+		fmt.Fprintln(os.Stderr, "lits:", err)
+		os.Exit(2)
+	}
+	langs := []string{}
+	for _, l := range []string{"json", "sen"} {
+		if want[l] {
+			langs = append(langs, l)
+		}
+	}
+	strCtx := []string{"L", "[L]", "{L:1}", "{\"k\":L}", "[L,L]", "{L:L,\"z\":L}", "[\"a\\u0041\",L]"}
+	numCtx := []string{"L", "[L]", "{\"a\":L}", "[L,L ]"}
+	seen := map[string]bool{}
+	var useg [][]byte // one-segment \u... bodies (the escape classes)
+	sc := bufio.NewScanner(f)
+	sc.Buffer(make([]byte, 1<<20), 1<<26)
+	n := 0
+	for sc.Scan() {
+		var lit struct {
+			Kind string `json:"kind"`
+			B    []int  `json:"b"`
+		}
+		if json.Unmarshal(sc.Bytes(), &lit) != nil {
+			continue
+		}
+		lb := string(plib.Bytes(lit.B))
+		if seen[lb] {
+			continue
+		}
+		seen[lb] = true
+		n++
+		ctxs := numCtx
+		if lit.Kind == "str" {
+			ctxs = strCtx
+			body := lb[1 : len(lb)-1]
+			if strings.HasPrefix(body, "\\u") && (len(body) == 6 || (len(body) == 12 && strings.Count(body, "\\u") == 2 && (body[2] == 'D' || body[2] == 'd'))) {
+				useg = append(useg, []byte(body))
+			}
+		} else if quick && n%16 != 0 {
+			continue // number shapes are C02's subject: one in 16 in the quick tier
+		}
+		for ci, c := range ctxs {
+			doc := []byte(strings.ReplaceAll(c, "L", lb))
+			for _, l := range langs {
+				if quick && lit.Kind == "num" && l == "sen" && ci > 0 {
+					continue
+				}
+				emit(job{b: doc, cls: "lit-" + lit.Kind, lang: l, light: quick && lit.Kind == "num" && ci > 0, extra: true})
+			}
+		}
+	}
+	// the \u classes + neighbours in every order of three segments, as value and as member name
+	segs := append([][]byte{}, useg...)
+	segs = append(segs, []byte("\\n"), []byte("\xef\xbf\xbd"), []byte("a"))
+	for _, a := range segs {
+		for _, b := range segs {
+			for _, c := range segs {
+				body := cat(a, b, c)
+				for _, ctx := range []string{"L", "{L:L}", "[L"} {
+					doc := []byte(strings.ReplaceAll(ctx, "L", "\""+string(body)+"\""))
+					for _, l := range langs {
+						emit(job{b: doc, cls: "lit-u3", lang: l, extra: true})
+					}
+				}
+			}
+		}
+	}
+	// a \u escape / surrogate pair across the 4096-byte refill of the reader variants: every split offset
+	for _, a := range useg {
+		for _, b := range append(append([][]byte{}, useg...), nil) {
+			lit := cat([]byte("\""), a, b, []byte("\""))
+			for off := 1; off < len(lit); off++ {
+				pad := 4096 - 1 - off
+				for _, ctx := range [][2]string{{"[", "]"}, {"{", ":1}"}} {
+					doc := cat([]byte(ctx[0]), bytes.Repeat([]byte{' '}, pad), lit, []byte(ctx[1]))
+					for _, l := range langs {
+						if quick && (l == "sen" || len(b) > 0 && off%2 == 0) {
+							continue
+						}
+						emit(job{b: doc, cls: "lit-straddle4096", lang: l, extra: true})
+					}
+				}
+			}
+		}
+	}
+}
+
+// genMongo: every token function the library can register (sen/mongo.go) and an unknown one x every argument-shape
+// class {none, good string, junk string, empty string, int, big int, float, bool, null, list, map, nested call, 2+
+// arguments, unterminated} x contexts, plus every prefix x SEN-alphabet byte; run on the SEN entry points with and
+// without AddMongoFuncs()
+func genMongo(quick bool, emit func(job)) {
+	names := []string{"ISODate", "ObjectId", "NumberInt", "NumberLong", "NumberDecimal", "Unknown"}
+	shapes := []string{"()", "(\"5\")", "(\"2021-01-01T00:00:00Z\")", "(\"junk\")", "(\"\")", "('5')", "(5)", "(-5)", "(1600000000000)", "(12345678901234567890123)",
+		"(1.5)", "(1e3)", "(true)", "(false)", "(null)", "([1])", "([])", "({a:1})", "({})", "(abc)", "(NumberLong(\"5\"))", "(ISODate(5))", "(Unknown(1))",
+		"(\"5\" 6)", "(\"5\",\"6\")", "(5 6 7)", "(", "(\"5\"", "(5", "(\"5\"))", "( \"5\" )", "(\n5\n)", "(\"5\"+\"6\")", "(// c\n5)"}
+	ctxs := []string{"X", "[X]", "{a:X}", "[X X]", "{a:X b:[X]}", "[1 X \"s\"]"}
+	for _, nm := range names {
+		for _, sh := range shapes {
+			x := nm + sh
+			for _, c := range ctxs {
+				emit(job{b: []byte(strings.ReplaceAll(c, "X", x)), cls: "sen-tokenfunc", lang: "sen", extra: true})
+			}
+			if quick && nm != "NumberLong" && nm != "ISODate" {
+				continue
+			}
+			doc := []byte("[" + x + "]")
+			for p := len(nm); p <= len(doc); p++ {
+				for _, b := range alphaSEN {
+					emit(job{b: cat(doc[:p], []byte{b}), cls: "sen-tokenfunc-prefix", lang: "sen", extra: true})
+					emit(job{b: cat(doc[:p], []byte{b}, doc[p:]), cls: "sen-tokenfunc-insert", lang: "sen", extra: true})
+				}
 			}
 		}
 	}
@@ -861,7 +1007,7 @@ func genMutations(r *rand.Rand, quick bool, want map[string]bool, emit func(job)
 			if !want[l] {
 				continue
 			}
-			emit(job{b: doc, cls: "valid", lang: l})
+			emit(job{b: doc, cls: "valid", lang: l, extra: true})
 			for k := 0; k < len(doc); k++ {
 				emit(job{b: doc[:k], cls: "truncated", lang: l})
 			}
@@ -870,7 +1016,7 @@ func genMutations(r *rand.Rand, quick bool, want map[string]bool, emit func(job)
 				for c := 0; c < 1+r.Intn(3); c++ {
 					x = mutate(r, x, alphaJSON)
 				}
-				emit(job{b: x, cls: "mutated", lang: l})
+				emit(job{b: x, cls: "mutated", lang: l, extra: true})
 			}
 		}
 	}
@@ -907,7 +1053,7 @@ func genSen(r *rand.Rand, quick bool, emit func(job)) {
 		if si >= len(senSeeds) {
 			k = 0 // random seeds: no continuation
 		}
-		emit(job{b: doc, cls: "sen-seed", lang: "sen"})
+		emit(job{b: doc, cls: "sen-seed", lang: "sen", extra: true})
 		for p := 0; p <= len(doc); p++ {
 			if si >= len(senSeeds) && p%3 != 0 {
 				continue
@@ -923,7 +1069,7 @@ func genSen(r *rand.Rand, quick bool, emit func(job)) {
 			for c := 0; c < 1+r.Intn(3); c++ {
 				x = mutate(r, x, alphaSEN)
 			}
-			emit(job{b: x, cls: "sen-mutated", lang: "sen"})
+			emit(job{b: x, cls: "sen-mutated", lang: "sen", extra: true})
 		}
 	}
 }
